@@ -146,12 +146,54 @@ def explore(ctx):
         observed = {p: v for p, v in o.after.items() if not (p.startswith('cvise_bug_') and v[2] is None)}
         term = f'({tcs}, {opl}, {coq_wdir(o.before, skip)}, {coq_wdir(observed, skip)})'
         cases.append((term, []))
+    real_lines_errors(ctx, rnd)
     ctx.sample({'scenario_files': cases and gen(random.Random(1))['files'], 'extra': 'notes.txt, b/other.h, pre-existing .orig, modes'})
     bad = coq.corr_eval('c04', ['From CV Require Import Fs.Fs Fs.FsCorr.', 'From Coq Require Import String.', 'Open Scope string_scope.'], 'fs_check', cases, shard=60)
     ctx.corr_cases += len(cases)
     ctx.corr_disagree += len(bad)
     for b in bad[:5]:
         ctx.broke('correspondence', 'Fs model vs working directory after CVise.reduce', cases[b][0][:1500])
+
+
+def real_lines_errors(ctx, rnd):
+    """LinesPass.new() works with temp files NEXT TO the test case in the user's directory: whatever happens to the
+    formatter (cannot be executed, prints bytes that are not text, exits non-zero) the directory must hold nothing new
+    afterwards, also when the pass run ends by an error."""
+    from cvise.passes.lines import LinesPass
+    tools = {}
+    d = os.path.join(ctx.tmp, 'c04-tools')
+    os.makedirs(d, exist_ok=True)
+    tools['exec-format-error'] = os.path.join(d, 'garbage')
+    with open(tools['exec-format-error'], 'wb') as f:
+        f.write(b'\x00\x01 not a program')
+    os.chmod(tools['exec-format-error'], 0o755)
+    tools['not-utf8-output'] = os.path.join(d, 'latin')
+    with open(tools['not-utf8-output'], 'w') as f:
+        f.write('#!/bin/sh\nprintf "a;\\n\\377\\376;\\n"\n')
+    os.chmod(tools['not-utf8-output'], 0o755)
+    tools['exit-3'] = os.path.join(d, 'fails')
+    with open(tools['exit-3'], 'w') as f:
+        f.write('#!/bin/sh\ncat\nexit 3\n')
+    os.chmod(tools['exit-3'], 0o755)
+    tools['missing'] = os.path.join(d, 'does-not-exist')
+    for what, tool in tools.items():
+        for arg in ('0', '1'):
+            for k in (1, 2):
+                files = [('t.c', 'int a;\nint b;\n'), ('sub/u.c', 'int c;\n')][:k]
+                sc = {'files': files, 'rules': [([('has', 0, 'a')], 0)], 'passes': [], 'cfg': {'N': 2, 'no_cache': True}, 'sched': [1] * 20,
+                      'extra_files': [('notes.txt', 'keep me')], 'pre_orig': [], 'modes': {n: 0o644 for n, _ in files}, 'real_pass': f'lines::{arg} formatter {what}'}
+                p = LinesPass(arg, {'topformflat': tool})
+                p.max_transforms = None
+                o = driver.run_scenario(sc, ctx.tmp, real_passes=[p], prepare=prepare_for(sc))
+                ctx.evaluations += 1
+                ctx.count('real-lines-formatter:' + what)
+                names = [n for n, _ in files]
+                new = sorted(x for x in o.after if x not in o.before and not x.endswith('/'))
+                changed = sorted(x for x in o.before if x in o.after and o.after[x] != o.before[x] and x.rstrip('/') not in names and not x.endswith('/'))
+                if new or changed:
+                    ctx.violation('foreign-change', f'lines::{arg} with a formatter that {what}: new files {new}, changed {changed} in the working directory after the pass run '
+                                  f'(ended with {type(o.passes[0]["exc"]).__name__ if o.passes and o.passes[0]["exc"] else "no error"})', {'scenario': sc})
+                ctx.nontriv(('lines-formatter', what, arg, k))
 
 
 def run_with_modes(ctx, sc):
@@ -175,6 +217,9 @@ def run_with_modes(ctx, sc):
 
 def replay(ctx, payload):
     sc = payload['replay']['scenario']
+    if sc.get('real_pass'):
+        real_lines_errors(ctx, random.Random(1))
+        return
     sc['modes'] = {k: int(v) for k, v in sc['modes'].items()}
     o = run_with_modes(ctx, sc)
     oracle(ctx, sc, o)
